@@ -1,6 +1,8 @@
 import Iec.Lemmas.Srv104
 import Iec.Lemmas.MsgQueue
 import Iec.Lemmas.MsgQueueRetain
+import Iec.Lemmas.Srv104QWf
+import Iec.Lemmas.Srv104Kept
 import Iec.Gen.Consts104
 /-
 C06 — Server event buffer: no loss, kept until acknowledged, resent after reconnect.
@@ -40,11 +42,14 @@ to back from `first` to `lastInBuffer`, `low` back to back from offset 0 below `
                               (Lemmas/MsgQueueRetain.lean: on the grid of equal sizes a new entry displaces at most one old
                               entry, and only when the ring is full)
 
-plus the entry-level laws below.  NOT proved: validity of stale references in markAsduAsConfirmed
+plus the entry-level laws below and, for the whole server, `events_kept_until_acknowledged` (below).  NOT proved: validity of stale references in markAsduAsConfirmed
 (the id window), and the coupling with the k-buffer; those rest on the correspondence run (real ring - pointers, every entry's id / state / size in
 FIFO order - compared with the model after every operation, queue sizes 1..40) and the duplicate / order
-oracle of the harness.  The invariant is established by `MsgQueue.create` and re-established by the three
-operations above and by confirm / re-arm; the server-level composition is tied differentially.
+oracle of the harness.  The invariant is established by `MsgQueue.create` and re-established by every operation the server
+applies to a ring - proved for the whole server model over every history: `server_event_rings_wellformed`
+(`Lemmas/Srv104QWf.lean`, `Lemmas/MsgQueueWf.lean`: whatever reference `markAsduAsConfirmed` / `setEntryWaiting…` is
+called with, stale or not, the ring stays well-formed), so the theorems of this file apply to the rings of every reachable
+server state without a hypothesis.
 -/
 namespace Iec.Props.C06
 open Iec.Queues
@@ -275,5 +280,61 @@ example : ((enqueueAll (MsgQueue.create 1) [List.replicate 200 1, List.replicate
 theorem ring_geometry_matches_source :
     HDR = Iec.Gen.mqEntryHeader ∧ (MsgQueue.create 1).size = Iec.Gen.mqSize1 ∧ (MsgQueue.create 7).size = Iec.Gen.mqSize7 := by
   decide
+
+/-! ### every history of the server -/
+
+/-- **the event ring of every redundancy group / connection is well-formed in every reachable server state.** From a freshly
+created server whose event queue holds at least one entry, after any sequence of ticks (accept with queue initialisation,
+reception, acknowledgements that confirm entries - by references that may be stale -, transmission that marks entries sent,
+re-arming when a connection ends), enqueues (with displacement), restarts and environment events: the ring satisfies the
+layout invariant `MqInv` for some pair of lists - the hypothesis of `ring_is_a_list`, `enqueue_displaces_only_oldest`,
+`next_waiting_is_oldest_waiting`, `confirm_marks_or_removes`, `rearm_after_connection_loss` and of the C13 ring theorems. -/
+theorem server_event_rings_wellformed (p : Iec.Srv104.Params) (gs : List (String × List (Bool × List Nat))) (hq : 1 ≤ p.lowQ)
+    (ops : List Iec.Srv104.WOp) (g : Nat) :
+    ∃ up low, MqInv ((ops.foldl Iec.Srv104.WOp.apply (Iec.Srv104.create p gs)).grp g).lowQ up low :=
+  ((Iec.Srv104.run_gok p gs hq ops).2 g).1
+
+/-- in particular the C walk over the ring of a reachable state terminates and yields exactly the queued entries -/
+theorem reachable_ring_is_a_list (p : Iec.Srv104.Params) (gs : List (String × List (Bool × List Nat))) (hq : 1 ≤ p.lowQ)
+    (ops : List Iec.Srv104.WOp) (g : Nat) :
+    ∃ up low, ((ops.foldl Iec.Srv104.WOp.apply (Iec.Srv104.create p gs)).grp g).lowQ.toList = MqInv.abs up low ∧
+      ((ops.foldl Iec.Srv104.WOp.apply (Iec.Srv104.create p gs)).grp g).lowQ.count = (MqInv.abs up low).length := by
+  obtain ⟨up, low, h⟩ := server_event_rings_wellformed p gs hq ops g
+  exact ⟨up, low, toList_eq _ up low h, by rw [h.count]; simp [MqInv.abs]⟩
+
+/-! ### remains buffered until acknowledged -/
+
+/-- **an event stays in the ring, unconfirmed, until the connection it was sent on acknowledges it.** For EVERY server
+state, connection `i` and group `g` whose ring is well-formed (every reachable state, `server_event_rings_wellformed`):
+after the reception step of connection `i` - whatever arrived, in whatever segmentation - the ring of `g` holds the same
+entries (offset, id, octets, order) as before without a prefix, every removed entry is referenced by the k-buffer of
+connection `i` (it was transmitted on `i` and not yet acknowledged), and every other entry that was not confirmed is still
+not confirmed unless the k-buffer of `i` references it.  The periodic tasks (transmission of waiting events, time-outs) and
+the reaping of an ended connection (re-arming) remove and confirm nothing at all. -/
+theorem events_kept_until_acknowledged (s : Iec.Srv104.Slave) (i g : Nat) (up low : List MEntry)
+    (h : MqInv (s.grp g).lowQ up low) :
+    (∃ up' low' k, MqInv ((Iec.Srv104.handleTcpConnection s i).grp g).lowQ up' low' ∧
+      (∀ x ∈ (up ++ low).take k, (x.1, x.2.id) ∈ Iec.Srv104.refsOf (s.conn i).win) ∧
+      (up' ++ low').map ekey = ((up ++ low).drop k).map ekey ∧
+      StKept (Iec.Srv104.refsOf (s.conn i).win) ((up ++ low).drop k) (up' ++ low')) ∧
+    (∃ up' low', MqInv ((Iec.Srv104.periodic s i).grp g).lowQ up' low' ∧ (up' ++ low').map ekey = (up ++ low).map ekey ∧
+      StKept [] (up ++ low) (up' ++ low')) ∧
+    (∃ up' low', MqInv ((Iec.Srv104.reap s i).grp g).lowQ up' low' ∧ (up' ++ low').map ekey = (up ++ low).map ekey ∧
+      StKept [] (up ++ low) (up' ++ low')) := by
+  have nodrop : ∀ q', KeptX [] (s.grp g).lowQ q' →
+      ∃ up' low', MqInv q' up' low' ∧ (up' ++ low').map ekey = (up ++ low).map ekey ∧ StKept [] (up ++ low) (up' ++ low') := by
+    intro q' hk
+    obtain ⟨up', low', k, h1, h2, h3, h4⟩ := hk up low h
+    have hk0 : (up ++ low).take k = [] := by
+      cases hx : (up ++ low).take k with
+      | nil => rfl
+      | cons x xs => have := h2 x (by rw [hx]; simp); simp at this
+    have hdrop : (up ++ low).drop k = up ++ low := by
+      have := List.take_append_drop k (up ++ low)
+      rw [hk0] at this; simpa using this
+    rw [hdrop] at h3 h4
+    exact ⟨up', low', h1, h3, h4⟩
+  exact ⟨(Iec.Srv104.kr_handleTcpConnection s i).kept g up low h,
+    nodrop _ ((Iec.Srv104.kr_periodic (R := []) s i).kept g), nodrop _ ((Iec.Srv104.kr_reap (R := []) s i).kept g)⟩
 
 end Iec.Props.C06
